@@ -76,7 +76,8 @@ type c02Scn struct {
 	Cap    int // defs.ForwarderMaxPendingChunksForAck
 	MaxAge int // max session duration in ms (0: none)
 	Flavor int // 0: socket-like connection (operations fail once closed); 1: datadog-like (Close is a no-op);
-	// 2: the real fluentdforward connection against a scripted fake Fluentd (c02_fluentd.go)
+	// 2: the real fluentdforward connection against a scripted fake Fluentd, 3: the real datadog connection against
+	// a fake HTTP intake (c02_fluentd.go)
 	Limit   int   // ms after which the driver fires its remaining actions (0: c02Limit)
 	Big     int   // flavour 2: payload of every chunk in KiB (large chunks make a write block when the server stalls)
 	Bug     int   // 1: outside the connection contract: a blocked ack read ignores Close and the deadline
@@ -310,6 +311,8 @@ func (w *c02World) fire(force bool) {
 			data := []byte{byte(w.pushed)}
 			if w.scn.Flavor == 2 {
 				data = c02ForwardChunk(c02ChunkID(w.pushed), w.scn.Big*1024)
+			} else if w.scn.Flavor == 3 {
+				data = []byte(c02ChunkID(w.pushed))
 			}
 			w.inputCh <- base.LogChunk{ID: c02ChunkID(w.pushed), Data: data}
 			progress, force = true, false
@@ -572,14 +575,17 @@ func c02RunScenario(scn *c02Scn) *c02Result {
 		},
 	}
 	opener := w.openConn
-	if scn.Flavor == 2 {
+	maxDuration := time.Duration(scn.MaxAge) * time.Millisecond
+	if scn.Flavor >= 2 {
 		w.fluentd = c02NewFluentd(w)
 		defer w.fluentd.shutdown()
 		opener = w.openReal
+		if scn.Flavor == 3 {
+			_, maxDuration = c02WrapperOpener(3, "127.0.0.1:1") // what the datadog wrapper passes (0)
+		}
 	}
 	worker := baseoutput.NewClientWorker(logger.WithField("c02", serial), args,
-		promreg.NewMetricFactory(fmt.Sprintf("c02w%d_", serial), nil, nil), opener,
-		time.Duration(scn.MaxAge)*time.Millisecond)
+		promreg.NewMetricFactory(fmt.Sprintf("c02w%d_", serial), nil, nil), opener, maxDuration)
 
 	w.mu.Lock()
 	w.fire(false) // actions due at trace length 0
